@@ -28,6 +28,7 @@ VARIABLE E           \* the edge set: pairs <<u,v>> (u < v when undirected)
 vars == <<E>>
 
 V == 1 .. N
+SeqOf(f) == [i \in V |-> f[i]]
 Pairs == IF Directed THEN {p \in V \X V : p[1] # p[2]} ELSE {p \in V \X V : p[1] < p[2]}
 PIdx(p) == (p[1] - 1) * N + p[2]
 
@@ -151,6 +152,110 @@ RWLap(dn, dd) == [i \in V |-> [j \in V |->
                ELSE IF i = j THEN R(dd - dn, dd)
                ELSE IF Adj(i, j) THEN R(dn - dd, dd * Deg(i)) ELSE RZero]]
 
+(********************************* HITS *************************************)
+(* network.HITS iterates  auth <- A^T hub, hub <- A auth  (each normalised to  *)
+(* unit 2-norm) from hub = 1, so auth_j is parallel to (A^T A)^(j-1) A^T 1 and *)
+(* hub_j to (A A^T)^j 1.  M = A^T A (resp. A A^T) is a non-negative symmetric  *)
+(* positive semidefinite integer matrix; it splits into irreducible blocks,    *)
+(* and the iteration acts on each block separately.  Where v = M^2 x0 is, on   *)
+(* every block, already an exact eigenvector (integer cross-multiplication),   *)
+(* the block eigenvalues lam_b = (Mv)_i/v_i are rational, the iterate is       *)
+(* SUM_b lam_b^j v_b, and the limit direction is v restricted to the blocks of *)
+(* maximal eigenvalue: an integer vector d.  Everything else (irrational       *)
+(* Perron vectors) is declared not exact and only normalisation is checked.    *)
+(* When the termination test |delta| < tol fires, the part on non-dominant     *)
+(* blocks is below tol*rho/(1-rho), rho = lam2/lam; a factor 2 covers the      *)
+(* second-order effect of the normalisation.                                   *)
+AT(i, j) == IF Adj(i, j) THEN 1 ELSE 0
+MAuth == [i \in V, j \in V |-> MapThenSumSet(LAMBDA k : AT(k, i) * AT(k, j), V)]
+MHub  == [i \in V, j \in V |-> MapThenSumSet(LAMBDA k : AT(i, k) * AT(j, k), V)]
+MulMV(m, x) == [i \in V |-> MapThenSumSet(LAMBDA j : m[i, j] * x[j], V)]
+RECURSIVE VGcdTo(_, _)
+VGcdTo(x, i) == IF i = 0 THEN 0 ELSE Gcd(VGcdTo(x, i - 1), x[i])
+Reduce(x) == LET g == VGcdTo(x, N) IN IF g = 0 THEN x ELSE [i \in V |-> x[i] \div g]
+Compose(c1, c2) == [i \in V, j \in V |-> \E k \in V : c1[i, k] /\ c2[k, j]]
+\* same irreducible block (paths of length <= 4 suffice for N <= 5)
+Blocks(m) == With([i \in V, j \in V |-> i = j \/ m[i, j] > 0], LAMBDA c1 :
+             With(Compose(c1, c1), LAMBDA c2 : Compose(c2, c2)))
+
+HitsDir(m, x0) ==
+  With(Reduce(MulMV(m, MulMV(m, x0))), LAMBDA v :
+  With(MulMV(m, v), LAMBDA mv :
+  With(Blocks(m), LAMBDA blk :
+    LET sup == {i \in V : v[i] > 0}
+        exact == \A i, j \in sup : blk[i, j] => mv[i] * v[j] = mv[j] * v[i]
+        Ge(i, j) == mv[i] * v[j] >= mv[j] * v[i]          \* lam(block of i) >= lam(block of j)
+        dom == {i \in sup : \A j \in sup : Ge(i, j)}
+        rest == sup \ dom
+    IN [ok |-> exact /\ sup # {},
+        d |-> [i \in V |-> IF i \in dom THEN v[i] ELSE 0],
+        lam |-> IF sup = {} THEN RZero ELSE LET t == CHOOSE i \in dom : TRUE IN R(mv[t], v[t]),
+        lam2 |-> IF rest = {} THEN RZero
+                 ELSE LET j == CHOOSE j \in rest : \A k \in rest : Ge(j, k) IN R(mv[j], v[j])])))
+
+HitsTols == {<<1, 1000>>, <<1, 100000000>>}
+HitsDev(h, tol) == RMul(RMul(RInt(2), R(tol[1], tol[2])), RDiv(h.lam2, RSub(h.lam, h.lam2)))
+HitsSide(h) == [ok |-> h.ok, d |-> SeqOf(h.d),
+                devs |-> IF h.ok THEN {<<t[1], t[2], HitsDev(h, t)[1], HitsDev(h, t)[2]>> : t \in HitsTols}
+                         ELSE {<<t[1], t[2], 0, 1>> : t \in HitsTols}]
+InDeg == [i \in V |-> Cardinality(In(i))]
+Ones == [i \in V |-> 1]
+\* R1: an exact direction is a non-negative eigenvector of M for lam, lam2 < lam; the two
+\* sides have the same dominant eigenvalue and the hub direction is A times the authority one
+HitsOk(ha, hh) ==
+  /\ \A h \in {<<ha, MAuth>>, <<hh, MHub>>} :
+        h[1].ok => /\ \A i \in V : MulMV(h[2], h[1].d)[i] * h[1].lam[2] = h[1].lam[1] * h[1].d[i]
+                   /\ \A i \in V : h[1].d[i] >= 0
+                   /\ \E i \in V : h[1].d[i] > 0
+                   /\ RLt(h[1].lam2, h[1].lam) /\ h[1].lam[1] > 0
+  /\ (ha.ok /\ hh.ok) =>
+        /\ ha.lam = hh.lam
+        /\ LET ad == [i \in V |-> MapThenSumSet(LAMBDA j : AT(i, j) * ha.d[j], V)]
+           IN  \A i, j \in V : ad[i] * hh.d[j] = ad[j] * hh.d[i]
+  /\ (E # {}) => (ha.ok = hh.ok)
+
+(******************************** diffusion *********************************)
+(* Undirected graphs, initial heat Heat (positive integers).                   *)
+(*  - Diffuse(t = 0) = exp(0) h = h, exactly.                                  *)
+(*  - Diffuse with the Laplacian D - A conserves the total heat (its columns   *)
+(*    sum to zero), for every t.                                               *)
+(*  - DiffuseToEquilibrium iterates h <- h - L h.  With the random walk        *)
+(*    Laplacian (1-damp)(I - A D^-1) (columns sum to zero: what gonum builds)  *)
+(*    heat is conserved per connected component and the fixed point is         *)
+(*    proportional to the degree there; with the documented orientation        *)
+(*    (1-damp)(I - D^-1 A) the fixed point is constant per component, equal    *)
+(*    to the degree-weighted mean.  Isolated nodes keep their heat.  Both are  *)
+(*    emitted; the harness selects by the orientation of the matrix it feeds.  *)
+(*  - Allowed deviation: the update is a contraction with factor               *)
+(*    rho <= 1 - (1-damp)/(diam*vol) per component (Chung's bound on the       *)
+(*    normalised Laplacian gap) in the degree-weighted norm, so the result is  *)
+(*    within tol/(1-rho) of the fixed point there, times dmax/dmin (>= the     *)
+(*    norm equivalence constant) in the 2-norm.                                *)
+Heat == [i \in V |-> 1 + ((i * 5 + Salt + Cardinality(E)) % 7)]
+EquiTol == <<1, 100000000>>
+Diffusion(m) ==
+  LET comp(v) == {u \in V : m.dist[u, v] # Inf}
+      vol(S) == MapThenSumSet(LAMBDA u : Deg(u), S)
+      live == {v \in V : Deg(v) > 0}
+      dmax == IF live = {} THEN 1 ELSE Max({Deg(v) : v \in live})
+      dmin == IF live = {} THEN 1 ELSE Min({Deg(v) : v \in live})
+      dv == IF live = {} THEN 1 ELSE Max({m.ecc[v] * vol(comp(v)) : v \in live})
+  IN [heat |-> SeqOf(Heat), sum |-> MapThenSumSet(LAMBDA i : Heat[i], V),
+      equicol |-> [v \in V |-> IF Deg(v) = 0 THEN RInt(Heat[v])
+                               ELSE R(MapThenSumSet(LAMBDA u : Heat[u], comp(v)) * Deg(v), vol(comp(v)))],
+      equirow |-> [v \in V |-> IF Deg(v) = 0 THEN RInt(Heat[v])
+                               ELSE R(MapThenSumSet(LAMBDA u : Deg(u) * Heat[u], comp(v)), vol(comp(v)))],
+      tol |-> EquiTol,
+      dev |-> RMul(R(EquiTol[1], EquiTol[2]), R(4 * dmax * dv, 3 * dmin))]
+\* R1: both vectors are fixed points of h <- h - L h for their orientation of RWLap(1,4),
+\* the column form conserves heat, the row form conserves degree-weighted heat
+DiffOk(df) == ~Directed =>
+  LET L == RWLap(1, 4) IN
+  /\ \A i \in V : RSumF([j \in V |-> RMul(L[j][i], df.equicol[j])]) = RZero
+  /\ \A i \in V : RSumF([j \in V |-> RMul(L[i][j], df.equirow[j])]) = RZero
+  /\ RSumF(df.equicol) = RInt(df.sum)
+  /\ RSumF([v \in V |-> RMul(RInt(Deg(v)), df.equirow[v])]) = RInt(MapThenSumSet(LAMBDA v : Deg(v) * Heat[v], V))
+
 (************************** states and generator ****************************)
 Init == IF Sample = 0 THEN E \in SUBSET Pairs
         ELSE E \in {SampleGraph(k) : k \in 1 .. Sample}
@@ -158,9 +263,8 @@ Next == UNCHANGED E
 Spec == Init /\ [][Next]_vars
 
 EdgeList == {<<e[1], e[2], W(e[1], e[2])>> : e \in E}
-SeqOf(f) == [i \in V |-> f[i]]
 
-Record(m, prs) ==
+Record(m, prs, ha, hh, df) ==
   LET base == [k |-> "net", n |-> N, dir |-> Directed, wtd |-> Weighted, edges |-> EdgeList,
                dist |-> [i \in V |-> [j \in V |-> m.dist[i, j]]],
                bet |-> SeqOf(m.bet),
@@ -170,8 +274,9 @@ Record(m, prs) ==
   IN IF Directed
      THEN base @@ [pr |-> {[d |-> d, r |-> SeqOf(prs[d]),
                             tols |-> {<<t[1], t[2], PRBound(d, t)[1], PRBound(d, t)[2]>> : t \in Tols}]
-                           : d \in Dampings}]
-     ELSE base @@ [lap |-> Lap, symlap |-> SymLapSq]
+                           : d \in Dampings},
+                   hits |-> [auth |-> HitsSide(ha), hub |-> HitsSide(hh)]]
+     ELSE base @@ [lap |-> Lap, symlap |-> SymLapSq, diff |-> df]
 
 (**************************** R1: identities ********************************)
 \* each shortest path with h hops has h-1 interior nodes and h edges; unweighted: h = dist
@@ -202,6 +307,10 @@ LapOk == ~Directed =>
 Check ==
   With(Measures, LAMBDA m :
   With([d \in Dampings |-> IF Directed THEN PageRank(d[1], d[2]) ELSE <<>>], LAMBDA prs :
+  With(HitsDir(MAuth, InDeg), LAMBDA ha :
+  With(HitsDir(MHub, Ones), LAMBDA hh :
+  With(IF Directed THEN <<>> ELSE Diffusion(m), LAMBDA df :
      /\ BetSum(m) /\ ShortestOK(m) /\ Triangle(m) /\ Symmetric(m) /\ PROk(prs) /\ LapOk
-     /\ Emit => PrintT(ToJson(Record(m, prs)))))
+     /\ (Directed => HitsOk(ha, hh)) /\ (~Directed => DiffOk(df))
+     /\ Emit => PrintT(ToJson(Record(m, prs, ha, hh, df))))))))
 =============================================================================
